@@ -33,11 +33,10 @@ Definition show_state (s : state) : string :=
     ("log", show_list show_ev (elog s))
   ].
 
+Definition conv_mods (mods : list (dotted * (bool * list name * bool))) : list (dotted * modinfo) :=
+  map (fun e => (fst e, match snd e with (p, a, r) => MI p a r end)) mods.
 Definition mk_world (mods : list (dotted * (bool * list name * bool))) : world :=
-  fun d => match assoc d mods with
-           | Some (p, a, r) => Some (MI p a r)
-           | None => None
-           end.
+  fun d => assoc d (conv_mods mods).
 
 (* initial state of a case: user namespaces (builtins first), extra sys.modules entries and
    attributes of non-universe objects, then the universe modules the case imports beforehand *)
@@ -79,6 +78,7 @@ Definition run_seq (mods : list (dotted * (bool * list name * bool)))
   let s0 := mk_state w nss0 loaded0 attrs0 preload in
   show_obj [("index", show_index idx);
             ("wf", show_bool (wf_b w s0));
+            ("wfp", show_bool (wfp_b w s0 && noclash_b (conv_mods mods)));
             ("init", show_state s0);
             ("steps", "[" ++ join "," (run_ops w idx ops s0) ++ "]")].
 
